@@ -4,7 +4,7 @@
 import sys, os, shutil, json, re
 ROUND = os.environ.get("ROUND", "2")
 ROOT = os.environ.get("R", "/tmp/seedmut2")
-ORD = {"2": "second", "3": "third", "4": "fourth", "5": "fifth", "6": "sixth", "7": "seventh", "8": "eighth", "9": "ninth", "10": "tenth", "11": "eleventh"}[ROUND]
+ORD = {"2": "second", "3": "third", "4": "fourth", "5": "fifth", "6": "sixth", "7": "seventh", "8": "eighth", "9": "ninth", "10": "tenth", "11": "eleventh", "12": "twelfth"}[ROUND]
 for cid in sys.argv[1:]:
     base = f"{ROOT}/{cid}.out"
     for n in sorted(os.listdir(base)):
